@@ -134,6 +134,24 @@ def run(ctx, rep):
         norm = lambda l: [("kind" if x in ("get_kind", "STRUCTURE", "kind") else x) for x in l]
         rep.add("R11c", "key_and_instance_handle", "the type walk and the data walk test the same conditions in the same order", norm(a) == norm(b2),
                 "data walk tests %s, type walk tests %s" % (a, b2))
+    # R11e: key-only changes (dispose / unregister) carry the serialized key holder, which is what a reader without the key hash
+    # deserializes with the key holder type to derive the handle
+    ke = 0
+    for name in ("dispose_w_timestamp", "unregister_w_timestamp"):
+        for b in fx.bodies.values():
+            if b.item_name != name or not b.is_fn_like() or "DataWriterEntity" not in (b.impl_self or ""):
+                continue
+            fc = FnCtx(b)
+            for bb, i, s in fc.aggregates("CacheChange"):
+                flds = s.rv.agg.get("fields") or []
+                if "data_value" not in flds:
+                    continue
+                ke += 1
+                v = fc.rv_expr(s)[3][flds.index("data_value")]
+                ok = E.mentions_call(v, "KeyHolderData::as_dynamic_data") or E.mentions_call(v, "as_dynamic_data")
+                adder(rep, b)("R11e", "%s sends the serialized key holder as payload" % name, ok,
+                              "payload is %s: a reader that receives this change without PID_KEY_HASH deserializes it with the key holder type and derives another handle" % fc.show(v)[:140], s.line)
+    rep.floor("R11e", ke, 2, "key-only CacheChange constructions")
     # R11d
     k = 0
     for name in ("as_data_submessage",):
